@@ -1225,7 +1225,7 @@ class Tensor:
             parent_var._view_children.append(tensor_out)
 
         if _mem.MEM_GUARD:
-            if out is not None and isinstance(tensor_out.data.base, np.ndarray):
+            if isinstance(tensor_out.data.base, np.ndarray):
                 _mem.lock_arr_writeability(tensor_out.data.base)
                 _uniques_bases_then_arrs.append(tensor_out.data.base)
             _mem.lock_arr_writeability(tensor_out.data)
